@@ -229,6 +229,7 @@ class SeededApplication:
             r2, n2 = self.fwd.guard_edges(fa, am, needed)
             removed += r2
             narrow += n2
+        cfg_unguarded = fa.cfg
         if removed:
             fa = fa.with_cfg(fa.cfg.pruned(removed)).prune(assume)
         cfg = fa.cfg
@@ -268,6 +269,25 @@ class SeededApplication:
                 ok = cfg.must_pass(set(direct), src=loop_next, dst=site)
                 start = loop_next
                 through = set(direct)
+                if not ok:
+                    # a complete pre-pass: an earlier loop over the same collection that injects into every element (no
+                    # break / return inside - judged before the isinstance guards were resolved, another element may fail
+                    # them) and is exhausted before the applying loop starts
+                    from .hooks import _early_exits
+                    pre = set()
+                    for n2, nd2 in cfg.nodes.items():
+                        if nd2.kind != "next" or n2 == loop_next or not isinstance(nd2.owner, ast.For):
+                            continue
+                        if self.fwd._loop_source(fa, n2, _lv(nd2.owner)) != member.attr:
+                            continue
+                        body = cfg.out_edge(n2, True)
+                        if body is None or _early_exits(cfg_unguarded, nd2.owner):
+                            continue
+                        if (body in direct or not cfg.reachable(body, n2, avoid=set(direct))) and \
+                                not cfg.reachable(body, site, avoid={n2}):
+                            pre.add(n2)
+                    if pre and cfg.must_pass(pre, src=cfg.entry, dst=site):
+                        ok = True
             if ok:
                 res.append((True, f"{member} applied at line {line} only after set_rng(<generator seeded with "
                                   f"seed and idx>)", line))
